@@ -217,11 +217,21 @@ func (w *world) mboxFlags(flags []imap.Flag) {
 // their own goroutine (a tracker may legitimately make them wait for the poll)
 // and are joined before the model is consulted again.
 func (w *world) poll(t fataler, s *session, allowExpunge bool, atWrite int, inject func()) {
+	w.pollCmd(t, s, allowExpunge, "", atWrite, inject)
+}
+
+// pollCmd: failing != "" sends a non-UID FETCH/STORE/SEARCH that the server
+// rejects (BAD): whatever it reports on that occasion, it must not be an EXPUNGE
+// (and it may report nothing at all).
+func (w *world) pollCmd(t fataler, s *session, allowExpunge bool, failing string, atWrite int, inject func()) {
 	s.tagN++
 	tag := fmt.Sprintf("p%d", s.tagN)
 	cmd := "NOOP"
 	if !allowExpunge {
 		cmd = "FETCH 1 FLAGS" // non-UID FETCH: expunges must be withheld
+	}
+	if failing != "" {
+		cmd, allowExpunge = failing, false
 	}
 	pendingAtStart := len(s.pending)
 	var injected chan struct{}
@@ -255,8 +265,11 @@ func (w *world) poll(t fataler, s *session, allowExpunge bool, atWrite int, inje
 	if err != nil {
 		w.fail(t, "%s: Poll(allowExpunge=%v) via %q failed: %v (server log: %v)", s.name, allowExpunge, cmd, err, getEnv().Log.Lines())
 	}
-	if st.Status != "OK" {
+	if failing == "" && st.Status != "OK" {
 		w.fail(t, "%s: Poll(allowExpunge=%v) via %q: %s %s", s.name, allowExpunge, cmd, st.Status, st.Text)
+	}
+	if failing != "" && st.Status == "OK" {
+		w.fail(t, "HARNESS: %q was expected to be rejected", cmd)
 	}
 	w.log("%s.Poll(allowExpunge=%v) -> %d updates", s.name, allowExpunge, len(lines))
 	var got []expected
@@ -354,7 +367,7 @@ func (w *world) poll(t fataler, s *session, allowExpunge bool, atWrite int, inje
 		if len(s.pending) == 0 && fmt.Sprint(s.view) != fmt.Sprint(w.truth) {
 			w.fail(t, "%s: after a full poll the client's view %v differs from the mailbox %v", s.name, s.view, w.truth)
 		}
-	} else if delivered < pendingAtStart && len(s.pending) > 0 && s.pending[0].kind != "expunge" {
+	} else if failing == "" && delivered < pendingAtStart && len(s.pending) > 0 && s.pending[0].kind != "expunge" {
 		w.fail(t, "%s: Poll(allowExpunge=false) stopped before %v although it is not an expunge", s.name, s.pending[0])
 	}
 }
@@ -509,7 +522,13 @@ func runHistory(t *rapid.T, maxInc []int) {
 					}
 				}
 			}
-			w.poll(t, s, allow, atWrite, inject)
+			if inject == nil && rapid.IntRange(0, 5).Draw(t, "failingCommand") == 0 {
+				bad := rapid.SampledFrom([]string{"FETCH 1 BOGUSITEM", "FETCH 1", "STORE 1 BOGUS", "SEARCH BOGUSKEY", "FETCH 1 (FLAGS BOGUS)"}).Draw(t, "bad")
+				w.pollCmd(t, s, false, bad, 0, nil)
+				ev.Class("poll:failing-non-UID-command")
+			} else {
+				w.poll(t, s, allow, atWrite, inject)
+			}
 			polls++
 			ev.Class(fmt.Sprintf("poll:allowExpunge=%v", allow))
 		},
